@@ -75,7 +75,7 @@ def _period_attr(chk, cls):
 
 def loop_shape(chk, cls):
     prog = chk.program
-    run = prog.lookup_method(cls, "run")
+    run = util.flat(prog, prog.lookup_method(cls, "run"))
     rule = "O9.2"
     if run is None:
         chk.bad(rule, cls.qual, "service class has no run method", node=cls.node)
@@ -270,7 +270,7 @@ def buffer_rules(chk):
         )
         return
     # (b) who writes target.demand inside Buffer
-    run = prog.lookup_method(cls, "run")
+    run = util.flat(prog, prog.lookup_method(cls, "run"))
     writes = []
     for fis in cls.methods.values():
         for fi in fis:
@@ -290,14 +290,22 @@ def buffer_rules(chk):
         for n in ast.walk(loop0):
             if isinstance(n, ast.Call) and isinstance(n.func, ast.Attribute) and util.dotted(n.func.value) == "self":
                 called_in_loop.add(n.func.attr)
+    # a coroutine that run only awaits as a statement runs in place (its body is part of the flattened run)
+    orig_run = prog.lookup_method(cls, "run")
+    awaited_in_run = {n.value.value.func.attr for n in ast.walk(orig_run.node) if isinstance(n, ast.Expr) and isinstance(n.value, ast.Await) and isinstance(n.value.value, ast.Call) and isinstance(n.value.value.func, ast.Attribute) and util.dotted(n.value.value.func.value) == "self"} if run is not orig_run else set()
+    refs = lambda nm: sum(1 for gs in cls.methods.values() for g in gs for x in ast.walk(g.node) if isinstance(x, ast.Attribute) and x.attr == nm and util.dotted(x.value) == "self")  # noqa: E731
+    awaited_in_run = {nm for nm in awaited_in_run if refs(nm) == 1}
     called_elsewhere = set()
     for fis in cls.methods.values():
         for f2 in fis:
-            for n in ast.walk(f2.node):
+            if f2.name in awaited_in_run:
+                continue
+            is_run = f2.qual == run.qual
+            for n in ast.walk(run.node if is_run else f2.node):
                 if isinstance(n, ast.Call) and isinstance(n.func, ast.Attribute) and util.dotted(n.func.value) == "self":
-                    if not (f2 is run and loop0 is not None and any(x is n for x in ast.walk(loop0))):
+                    if not (is_run and loop0 is not None and any(x is n for x in ast.walk(loop0))):
                         called_elsewhere.add(n.func.attr)
-    outside = [(fi, n) for fi, n in writes if fi is not run and not (fi.name in called_in_loop and fi.name not in called_elsewhere)]
+    outside = [(fi, n) for fi, n in writes if fi.qual != run.qual and not (fi.name in called_in_loop and fi.name not in called_elsewhere) and fi.name not in awaited_in_run]
     for fi, n in outside:
         chk.bad(rule, fi.qual, "Buffer writes the target's demand outside its window loop", node=n)
     if not writes:
@@ -378,7 +386,7 @@ def factory_run(chk):
     except Exception:
         chk.missing(rule, "FactoryPool")
         return
-    run = prog.lookup_method(cls, "run")
+    run = util.flat(prog, prog.lookup_method(cls, "run"))
     if run is None:
         chk.missing(rule, "FactoryPool.run")
         return
@@ -490,7 +498,7 @@ def run(chk):
     chk.floor("O9.services", len(services), 1)
     for cls in services:
         fl = util.service_flavour(prog, cls)
-        runfi = prog.lookup_method(cls, "run")
+        runfi = util.flat(prog, prog.lookup_method(cls, "run"))
         if runfi is None:
             chk.bad("O9.1", cls.qual, "service class without run method", node=cls.node)
             continue
